@@ -206,6 +206,19 @@ def vis_ops(case):
     return [op for op in case['ops'] if op[0] != 'exec']
 
 
+CLEAR_FORMS = ['CLEAR', 'NEW', 'RUN', '10 REM', '10 REM\rRUN']
+
+
+def basic_literal(val):
+    """a BASIC literal with the same value as the Python value (only ints and quote-free printable byte strings)"""
+    if val[0] == 'i':
+        return str(val[1])
+    if val[0] == 'y':
+        assert all(32 <= c < 127 and c != 34 for c in val[1])
+        return '"%s"' % ''.join(chr(c) for c in val[1])
+    raise ValueError(val)
+
+
 def name_bytes(name):
     return [ord(c) for c in name]
 
@@ -339,6 +352,18 @@ class C43(core.Check):
             ['dim', 'C!', [1]], ['set', 'C!()', ['l', [['t', 1], ['f', fhex(0.7)]]]], ['get', 'C!()', 0]])
         sc([['dim', 'B%', [1]], ['set', 'B%()', ['l', [['i', 1], ['i', 40000]]]], ['get', 'B%()', 0],
             ['set', 'B%()', ['y', [97, 98]]], ['get', 'B%()', 0]])
+        # the same value assigned again after BASIC changed / cleared the variable (stale "last assigned" caches)
+        sc([['set', 'A%', ['i', 5]], ['let', 'A%', ['i', 7]], ['get', 'A%', 0], ['set', 'A%', ['i', 5]], ['get', 'A%', 0],
+            ['eval', 'A%', []]])
+        for form in range(len(CLEAR_FORMS)):
+            sc([['set', 'A%', ['i', 5]], ['set', 'B$', ['y', [120, 121]]], ['set', 'F!', ['f', fhex(0.5)]],
+                ['clear', form], ['get', 'A%', 0],
+                ['set', 'A%', ['i', 5]], ['set', 'B$', ['y', [120, 121]]], ['set', 'F!', ['f', fhex(0.5)]],
+                ['get', 'A%', 0], ['get', 'B$', 0], ['get', 'F!', 0], ['eval', 'B$', []]])
+        sc([['base', 1], ['set', 'C%()', ['l', [['i', 1], ['i', 2]]]], ['letel', 'C%', [2], ['i', 9]], ['get', 'C%()', 0],
+            ['set', 'C%()', ['l', [['i', 1], ['i', 2]]]], ['get', 'C%()', 0], ['clear', 0], ['get', 'C%()', 0],
+            ['set', 'C%()', ['l', [['i', 1], ['i', 2]]]], ['get', 'C%()', 0], ['letel', 'C%', [0], ['i', 1]],
+            ['letel', 'D$', [3, 11], ['y', [65]]], ['letel', 'D$', [3, 1], ['y', [65]]], ['get', 'D$()', 0]])
         # string-space pressure in one session: collections must not detach strings converted earlier in the same row
         press = [['dim', 'A$', [3]]]
         for rnd in range(30):
@@ -507,9 +532,88 @@ class C43(core.Check):
             if rng.random() < 0.3:
                 ty = rng.choice([1, 2, 3, 4, 5, 6])
                 ops.append(['get', name, ty])
+            if rng.random() < 0.4:
+                # the BASIC side changes or clears the variable; then the API assigns the SAME value again
+                ops += self.basic_change(name)
+                ops += [['set', name, val], ['get', name, 0], ['eval', name, []]]
+                hist['reassign_after_basic_change'] = hist.get('reassign_after_basic_change', 0) + 1
         for name in names[:-1]:
             if rng.random() < 0.7:
                 ops.append(['get', name, 0])
+        return {'cp': cp, 'ops': ops}
+
+    def basic_literal_for(self, sigil):
+        rng = self.rng
+        if sigil == '$':
+            return ['y', [rng.choice([c for c in range(32, 127) if c != 34]) for _ in range(rng.choice([0, 1, 3, 8]))]]
+        return ['i', rng.choice([0, 1, -1, 7, 255, -32768, 32767, rng.randint(-32768, 32767)])]
+
+    def basic_change(self, name, idx=None):
+        """ops by which BASIC itself changes the variable: LET with a literal, or CLEAR / NEW / RUN / a program line"""
+        rng = self.rng
+        if rng.random() < 0.55:
+            if idx is None:
+                return [['let', name, self.basic_literal_for(name[-1])]]
+            return [['letel', name, idx, self.basic_literal_for(name[-1])]]
+        return [['clear', rng.randrange(len(CLEAR_FORMS))]]
+
+    def gen_history(self, hist):
+        """one session, a few variables, values drawn from a SMALL pool per variable (identical repeats are frequent),
+        API assignments interleaved with BASIC-side assignments and CLEAR / NEW / RUN / program lines; every variable
+        is read back after every step"""
+        rng = self.rng
+        cp = '437'
+        ops = []
+        basesel = rng.choice([None, None, 0, 1])
+        b = basesel or 0
+        if basesel is not None:
+            ops.append(['base', basesel])
+        scal = [self.rname(sg) for sg in rng.sample(SIGILS, rng.choice([1, 2, 3]))]
+        pools = {}
+        for nm in scal:
+            sg = nm[-1]
+            pools[nm] = [self.basic_literal_for(sg) if rng.random() < 0.5 else
+                         (['t', rng.randrange(2)] if sg != '$' and rng.random() < 0.2 else self.rleaf(sg, cp, 0))
+                         for _ in range(rng.choice([1, 2, 2, 3]))]
+        arr = None
+        if rng.random() < 0.5:
+            sg = rng.choice(SIGILS)
+            arr = self.rname(sg)
+            while arr.upper() in [x.upper() for x in scal]:
+                arr = self.rname(sg)
+            shape = [rng.choice([1, 2, 3]) for _ in range(rng.choice([1, 2]))]
+            pools[arr] = [self.rnested(shape, sg, cp, 0) for _ in range(2)]
+        live = []
+        for _ in range(rng.choice([6, 9, 12, 16])):
+            r = rng.random()
+            if r < 0.55:
+                nm = rng.choice(scal + ([arr] if arr else []))
+                if nm == arr:
+                    if rng.random() < 0.3:
+                        ops.append(['dim', arr, [k - 1 + b for k in shape]])
+                    ops.append(['set', arr + '()', rng.choice(pools[arr])])
+                    key = arr + '()'
+                else:
+                    ops.append(['set', nm, rng.choice(pools[nm])])
+                    key = nm
+                if key not in live:
+                    live.append(key)
+            elif r < 0.8 or not live:
+                nm = rng.choice(scal + ([arr] if arr else []))
+                if nm == arr:
+                    ops += self.basic_change(arr, [rng.randrange(b, k + b) for k in shape])
+                else:
+                    ops += self.basic_change(nm)
+            else:
+                nm = rng.choice(live)
+                if nm.endswith('()'):
+                    ops.append(['eval', nm[:-2], [rng.randrange(b, k + b) for k in shape]])
+                else:
+                    ops.append(['eval', nm, []])
+            for key in live:
+                ops.append(['get', key, 0])
+        hist['history'] = hist.get('history', 0) + 1
+        hist['history_ops'] = hist.get('history_ops', 0) + len(ops)
         return {'cp': cp, 'ops': ops}
 
     def gen_array(self, hist):
@@ -663,12 +767,14 @@ class C43(core.Check):
             out.append(self.gen_pressure(hist))
         for i in range(n):
             r = rng.random()
-            if r < 0.45:
+            if r < 0.40:
                 out.append(self.gen_scalar(hist))
-            elif r < 0.9:
+            elif r < 0.80:
                 out.append(self.gen_array(hist))
-            else:
+            elif r < 0.88:
                 out.append(self.gen_misc(hist))
+            else:
+                out.append(self.gen_history(hist))
         # every int at the 16-bit limits +-3 and a stride through the range
         edge = list(range(-32771, -32764)) + list(range(32764, 32772)) + list(range(-3, 4))
         stride = 97 if self.tier == 'thorough' else 2039
@@ -736,6 +842,13 @@ class C43(core.Check):
         if kind == 'set':
             s.set_variable(op[1], py(op[2]))
             return [0]
+        if kind == 'let':
+            # the BASIC side changes a variable the API also writes
+            return err_of_output(s.execute('%s=%s' % (op[1], basic_literal(op[2]))))
+        if kind == 'letel':
+            return err_of_output(s.execute('%s(%s)=%s' % (op[1], ','.join(str(i) for i in op[2]), basic_literal(op[3]))))
+        if kind == 'clear':
+            return err_of_output(s.execute(CLEAR_FORMS[op[1]]))
         if kind == 'get':
             ty = TYNAMES[op[2]]
             v = s.get_variable(op[1]) if ty is None else s.get_variable(op[1], as_type=ty)
@@ -768,6 +881,13 @@ class C43(core.Check):
                 ops.append('ODim %s %s' % (core.zl(name_bytes(op[1])), core.zl(op[2])))
             elif kind == 'set':
                 ops.append('OSet %s %s' % (core.zl(name_bytes(op[1])), coq(op[2])))
+            elif kind == 'let':
+                # LET name = literal stores what set_variable stores for the same value
+                ops.append('OSet %s %s' % (core.zl(name_bytes(op[1])), coq(op[2])))
+            elif kind == 'letel':
+                ops.append('OLetEl %s %s %s' % (core.zl(name_bytes(op[1])), core.zl(op[2]), coq(op[3])))
+            elif kind == 'clear':
+                ops.append('OClear')
             elif kind == 'get':
                 ops.append('OGet %s %d' % (core.zl(name_bytes(op[1])), op[2]))
             elif kind == 'eval':
@@ -898,7 +1018,16 @@ class C43(core.Check):
                     base = 0
             if kind == 'raw':
                 last_ok_set.pop(op[1].upper(), None)
-            if kind == 'set':
+            if kind == 'clear':
+                # CLEAR / NEW / RUN / storing a line: nothing assigned earlier may be expected any more
+                last_ok_set.clear()
+                dims.clear()
+                base = None
+            if kind == 'letel':
+                last_ok_set.pop(op[1].upper() + '()', None)
+                if base is None and o == [0]:
+                    base = 0
+            if kind in ('set', 'let'):
                 name = op[1].upper()
                 val = op[2]
                 sigil_ok = name.split('(')[0][-1:] in tuple(SIGILS) and name.split('(')[0][-1:] != ''
@@ -944,7 +1073,8 @@ class C43(core.Check):
                     elif doc:
                         exp = self.expect_leaf(sigil, val, cp)
                         if exp is not None and exp[0] != 'err' and not self.same(exp, got):
-                            return 'set_variable(%r, %r) then get_variable returned %r' % (op[1], val, got)
+                            return 'variable %r was last assigned %r (history: %s) but get_variable returned %r' % (
+                                op[1], val, ' / '.join(x[0] for x in ops[max(0, k - 6):k]), got)
             if kind == 'eval' and o[:1] == [0]:
                 got, _ = dec_py(o, 1)
                 # evaluate agrees with get_variable: compare with the preceding get of the same variable
